@@ -100,6 +100,40 @@ class Obj:
 
 OBJ = Obj()
 LAM = lambda: 0  # noqa: E731
+import enum  # noqa: E402
+
+
+class Precision(enum.IntEnum):
+  HALF = 16
+
+
+class Mode(str, enum.Enum):
+  FAST = 'fast'
+
+
+class Flag(enum.IntFlag):
+  A = 1
+  B = 2
+
+
+class MyInt(int):
+  def __repr__(self):
+    return '<MyInt %d>' % int(self)
+
+
+class MyStr(str):
+  def __repr__(self):
+    return '<MyStr %s>' % str(self)
+
+
+class MyBytes(bytes):
+  def __repr__(self):
+    return '<MyBytes>'
+
+
+class MyFloat(float):
+  def __repr__(self):
+    return '<MyFloat>'
 # value kind -> (python value or ('TEXT', gin text), literal?)
 VALUES = {
     'int': (7, True), 'negint': (-12, True), 'float': (1.5, True), 'bigfloat': (1e100, True), 'negzero': (-0.0, True),
@@ -115,12 +149,17 @@ VALUES = {
     'obj': (OBJ, False), 'lambda': (LAM, False), 'set': ({1, 2}, False), 'inf': (float('inf'), False),
     'nan': (float('nan'), False), 'list_with_obj': ([1, OBJ], False), 'complex': ((1 + 2j), False),
     'dict_with_inf': ({'k': float('inf')}, False),
+    # scalars that are instances of int / str / bytes / float but whose repr is not a literal
+    'intenum': (Precision.HALF, False), 'strenum': (Mode.FAST, False), 'intflag': (Flag.A | Flag.B, False),
+    'int_subclass': (MyInt(5), False), 'str_subclass': (MyStr('s'), False), 'bytes_subclass': (MyBytes(b'b'), False),
+    'float_subclass': (MyFloat(1.5), False), 'list_with_enum': ([1, Precision.HALF], False),
+    'plain_enum': (enum.Enum('E', 'X').X, False),
 }
 T0 = ('', 'c06.f', 'x')
 TARGETS = [T0, ('a', 'c06.f', 'x'), ('a/b', 'c06.f', 'y'), ('', 'pkg.mod.dup', 'x'), ('', 'other.mod.dup', 'x'),
            ('', 'pkg.Fn', 'x'), ('', 'pkg.fn', 'x'), ('s', 'pkg.Fn', 'x'), ('', 'c06.K.meth', 'v'), ('', 'c06.g', 't'),
            ('mac', 'gin.macro', 'value'), ('a/b', 'gin.macro', 'value'), ('', 'c06.K', 'w')]
-OTHER_KINDS = ['int', 'str_long_spaces', 'obj', 'nested_wide']
+OTHER_KINDS = ['int', 'str_long_spaces', 'obj', 'nested_wide', 'intenum']
 POOL = [(T0, k) for k in VALUES] + [(t, k) for t in TARGETS[1:] for k in OTHER_KINDS]
 WIDTHS = lambda ci: [ci + 1, ci + 2, 10, 20, 40, 80, 200]  # noqa: E731
 INDENTS = [0, 2, 4, 8]
